@@ -4,12 +4,16 @@ import (
 	"fmt"
 	"reflect"
 	"syscall"
+	"unsafe"
 
 	zz "github.com/tencent/goom/zzverif/c14"
 	"github.com/tencent/goom/zzverif/vsys"
 	corpus "verifh/targets/c14corpus"
 	"verifh/vk"
 )
+
+// protCells are fabricated function values the stubs of the reserve part point to.
+var protCells [][2]uintptr
 
 // ProtCase is the replay artefact of the protection-log part.
 type ProtCase struct {
@@ -184,6 +188,26 @@ func runProtlog(c *vk.Ctx) {
 				zz.UnpatchAll()
 			}
 		}
+		vsys.ResetLog()
+	}
+	// interface-method stubs written into the reserve inside the text segment (the executable mmap is refused):
+	// installing such a mock writes into image pages that hold earlier, live stubs (and goom's own code)
+	if c.Shard == 3%c.NShards {
+		vsys.MmapFail = func(int) bool { return true }
+		for i := 0; i < 40; i++ {
+			protCells = append(protCells, [2]uintptr{zz.PlaceholderAddr(), 0})
+			cell := unsafe.Pointer(&protCells[len(protCells)-1])
+			vsys.ResetLog()
+			var err error
+			_, p := vk.Try(func() { _, err = zz.MakeMethodCaller(cell) })
+			if p || err != nil {
+				c.Res.Unjudged++ // out of reserve: C20's subject
+				vsys.ResetLog()
+				break
+			}
+			judge(fmt.Sprintf("interface stub #%d in the reserve", i), "stub-write-in-reserve")
+		}
+		vsys.MmapFail = nil
 		vsys.ResetLog()
 	}
 	c.Res.Extra["protlog_targets"] = len(targets)
